@@ -222,7 +222,7 @@ def run(chk, scratch):
             shutil.rmtree(os.path.join(d, "saves%d" % n), ignore_errors=True)
         # source-free failpoints: the process dies at the k-th executed LINE of the repository's own code (any instruction between two
         # file-system mutations, e.g. between a write and the flush that makes it durable); k is drawn uniformly after .params was written
-        n_line = 90 if thorough else (18 if cname in conf_names[:2] else 0)
+        n_line = int(os.environ.get("VERIF_C07_NLINE", 0)) or (90 if thorough else (18 if cname in conf_names[:2] else 0))
         if n_line:
             def prepared(tag):
                 out = os.path.join(d, "line_" + tag)
@@ -240,7 +240,10 @@ def run(chk, scratch):
             rc_ = runner.run_isoquant(args_for(cfg, d, out, extra, saves=sv), home, mon=["crash"], cfg={"crash_root": out, "crash_lines": True}, events=evl, timeout=900)
             evs = runner.load_events(evl)
             total = max([e["n"] for e in evs if e["k"] == "line_total"] or [0])
-            at_params = max([e.get("line_n") or 0 for e in evs if e["k"] == "mut" and e["path"].endswith(".params")] or [0])
+            # in scope: after .params is COMPLETE, i.e. from the first file-system mutation that follows the opening of .params
+            lmuts = sorted([e for e in evs if e["k"] == "mut" and e.get("n") is not None], key=lambda e: e["n"])
+            pi = max([i for i, e in enumerate(lmuts) if e["path"].endswith(".params")] or [-1])
+            at_params = (lmuts[pi + 1].get("line_n") or 0) if 0 <= pi < len(lmuts) - 1 else 0
             shutil.rmtree(out, ignore_errors=True)
             if rc_["rc"] != 0 or total <= at_params + 100:
                 chk.inconclusive.append("%s: line-counting run did not finish (exit %s, %d lines)" % (cname, rc_["rc"], total))
